@@ -16,10 +16,13 @@ DIST_VALUES = {"D1": (1,), "D2": (2, 3)}
 def _nodecfg_behaviours(seed, num, depth, maxlen):
     cfgp = os.path.join(tlc.SPECS, f"NodeConfig_sim_{seed}.cfg")
     with open(cfgp, "w") as f:
-        f.write('SPECIFICATION Spec\nCONSTANTS\n  Nodes = {"a", "b", "c"}\n  Delays = {0, 1, 3}\n  Dists = {"D1", "D2"}\n  MaxLen = %d\n'
+        # NodeConfigSim: the kind of every operation is chosen first (uniformly), so setters and round trips are as frequent as connects
+        f.write('SPECIFICATION SimSpec\nCONSTANTS\n  Nodes = {"a", "b", "c"}\n  Delays = {0, 1, 3}\n  Dists = {"D1", "D2"}\n  MaxLen = %d\n'
                 'INVARIANT PhaseIsLongestPath\nINVARIANT LoopIffCycle\nINVARIANT KeysUnique\nINVARIANT Emit\nCHECK_DEADLOCK FALSE\n' % maxlen)
     try:
-        lines, tail = tlc.stream_tlc("NodeConfig", os.path.basename(cfgp), '"NCFG|', num * maxlen, depth=depth, seed=seed + 1)
+        # TLC evaluates the Emit invariant on EVERY successor it generates, not only on the one the walk continues with: a walk of 2 x depth
+        # steps prints ~2 000 lines (all siblings of every step). Read enough lines for `num` walks; c16 keeps the walks and a sample of siblings.
+        lines, tail = tlc.stream_tlc("NodeConfigSim", os.path.basename(cfgp), '"NCFG|', 1500 * num, depth=2 * depth, seed=seed + 1, timeout=900)
     finally:
         os.remove(cfgp)
     if "is violated" in tail or "Error:" in tail:
@@ -157,15 +160,27 @@ def c16(tier, seed):
     states, r2 = _nodecfg_behaviours(seed, 150 if quick else 3000, 8, 7)
     rep.add_tlc(r2["stats"])
     # maximal histories and the abstract state after each prefix
-    keys = {k: json.loads(k) for k in states}
-    behaviours = []
+    # a printed state is either on a walk (it has printed successors) or a sibling that the walk did not continue with; every one of them is
+    # a reachable state with its full history. Behaviours to replay: per parent state a seeded sample of its children (so that every kind of
+    # last operation - connect, both setters, round trip - is replayed after every walked prefix)
+    parents = {}
     for k, d in states.items():
+        if len(d["hist"]) >= 2:
+            parents.setdefault(json.dumps(d["hist"][:-1], sort_keys=True), []).append(k)
+    is_parent = set(parents)
+    rs = random.Random(seed)
+    chosen = []
+    for pk, kids in sorted(parents.items()):
+        leaves = sorted(k for k in kids if k not in is_parent)
+        by_op = {}
+        for k in leaves:
+            by_op.setdefault(states[k]["hist"][-1]["op"], []).append(k)
+        for op, ks in sorted(by_op.items()):
+            chosen += rs.sample(ks, min(len(ks), 3))
+    behaviours = []
+    for k in chosen:
+        d = states[k]
         hist = d["hist"]
-        if len(hist) < 2:
-            continue
-        is_prefix = any(len(h2) > len(hist) and h2[: len(hist)] == hist for h2 in keys.values())
-        if is_prefix:
-            continue
         abs_after = []
         ok = True
         for i in range(2, len(hist) + 1):
